@@ -91,6 +91,7 @@ def run(ctx, progs):
     ctx.rule("BUILD", "cargo +nightly check --offline --lib --features unstable")
     ctx.rule("CFGDIFF2", "functions differing between default and unstable == table U")
     ctx.rule("DELEG1", "each unstable arm is the reviewed substitution with pass-through operands")
+    ctx.rule("EQLEN1", "write_clone_of_slice and its stable stand-in are called with slices of provably equal length (the std API panics otherwise, the stable helper may not)")
     ctx.assumptions.append("std's assume_init_ref/mut, write_clone_of_slice, split_off* behave as the stable arms re-implement them (reviewed)")
     ok, msg = facts.plain_check("unstable")
     ctx.check(ok, "BUILD", "*", "cargo +nightly check --features unstable", "Cargo.toml",
@@ -101,6 +102,10 @@ def run(ctx, progs):
     for a, b in pairs:
         identical = cfgdiff2(ctx, progs[a], progs[b], "%s|%s" % (a, b))
         deleg1(ctx, progs[a], progs[b], "%s|%s" % (a, b), identical)
+    from .. import lenrule
+
+    for cfg, prog in progs.items():
+        lenrule.eqlen1(ctx, prog, cfg)
 
 
 def in_U(short):
